@@ -48,6 +48,21 @@ type WCase struct {
 	Mlg   float64     `json:"mlg,omitempty"`
 	LE    [][2]float64 `json:"le,omitempty"` // logged (argument, value) pairs of special.LogErfc
 	Clone bool        `json:"clone,omitempty"`
+	// ---- parameter layout of composite distributions (param.go)
+	Level   int    `json:"level,omitempty"` // 0 scalar, 1 vector, 2 matrix
+	NR      int    `json:"nr,omitempty"`
+	Tree    *PTree `json:"tree,omitempty"`   // spec handed to the constructors (W = weights)
+	Target  *PTree `json:"target,omitempty"` // what p was assembled from (W = log-weights)
+	Mode    string `json:"mode,omitempty"`   // set | roundtrip | roundtrip-clone
+	PV      []XF   `json:"pv,omitempty"`
+	BadLeaf bool   `json:"badleaf,omitempty"`
+	Extra   int    `json:"extra,omitempty"`
+	Short   bool   `json:"short,omitempty"`
+	Pre     *PTree `json:"pre,omitempty"` // logged
+	Post    *PTree `json:"post,omitempty"`
+	G0      []XF   `json:"g0,omitempty"`
+	G1      []XF   `json:"g1,omitempty"`
+	PUsed   []XF   `json:"pused,omitempty"`
 	hadDiff float64 // hunt: (tr(S X^-1) - sum_i S_ii X^-1_ii) / 2
 }
 
@@ -453,6 +468,7 @@ func wideHunt(o Opts, report func(Failure), tried *int) {
 	}
 	skewHunt(o, report, tried)
 	iwHunt(o, report, tried)
+	parHunt(o, report, tried)
 }
 
 // one case of the wide stream: mixtures, skew normal, matrix families in turn
@@ -482,6 +498,8 @@ func wEvalAll(c *WCase, fn string) (Outcome, string) {
 		return mixEvalAll(c, fn)
 	case "Skew":
 		return skewEvalAll(c)
+	case "Par":
+		return parEvalAll(c)
 	}
 	return iwEvalAll(c)
 }
@@ -491,6 +509,8 @@ func wCaseCoq(c WCase, fn string, o Outcome) string {
 		return mixCaseCoq(c, fn, o)
 	case "Skew":
 		return skewCaseCoq(c, o)
+	case "Par":
+		return parCaseCoq(c, o)
 	}
 	return iwCaseCoq(c, o)
 }
@@ -500,6 +520,8 @@ func wCheck(c WCase, fn string, report func(Failure), tried *int) {
 		mixCheck(c, fn, report, tried)
 	case "Skew":
 		skewCheck(c, report, tried)
+	case "Par":
+		parCheck(c, report, tried)
 	default:
 		iwCheck(c, report, tried)
 	}
